@@ -26,6 +26,7 @@ def wlS (iter ls : List String) : Stmt → Bool
   | .labelled l s => !iter.contains l && wlS iter (l :: ls) s
   | .tryS b _ _ c _ f => wlList iter b && wlList iter c && wlList iter f
   | .switchS _ cs => wlCases iter cs
+  | .withS _ b => wlS iter [] b
 def wlList (iter : List String) : Stmts → Bool
   | .nil => true
   | .cons s ss => wlS iter [] s && wlList iter ss
